@@ -15,6 +15,14 @@ def bits(name, x):
     return list(np.asarray(x, dtype=X.DT[name]).tobytes())
 
 
+def mkbuf(ctx, cap, kind):
+    """a buffer of the context: its default kind, or the byte-array kind of the CPU context"""
+    if kind == "bytearray":
+        from xobjects.context_cpu import BufferByteArray
+        return BufferByteArray(capacity=cap, context=ctx)
+    return ctx.new_buffer(cap)
+
+
 def run_case(c):
     ctx = xo.ContextCpu(omp_num_threads=c.get("omp", 0))
     out = {"calls": []}
@@ -80,7 +88,7 @@ def run_case(c):
         elif k == "first_xo":
             n = call["type"]
             A = getattr(xo, n)[:]
-            buf = ctx.new_buffer(call.get("cap", 256))
+            buf = mkbuf(ctx, call.get("cap", 256), call.get("bufkind"))
             buf.allocate(call.get("pre", 8))
             vals = np.arange(5, dtype=X.DT[n]) + np.asarray(3, dtype=X.DT[n])
             arr = A(vals, _buffer=buf)
@@ -88,7 +96,7 @@ def run_case(c):
             def f():
                 r = getattr(K, "first_" + n)(p=arr)
                 return {"ret": bits(n, r), "first_after": bits(n, arr[0]), "second": bits(n, arr[1])}
-            attempt("first-xobject-array/%s%s" % (n, "/after-growth" if call.get("grow") else ""), f,
+            attempt("first-xobject-array/%s%s%s" % (n, "/after-growth" if call.get("grow") else "", "/bytearray-buffer" if call.get("bufkind") else ""), f,
                     expect={"ret": bits(n, vals[0]), "first_after": bits(n, vals[0] + np.asarray(1, dtype=X.DT[n])), "second": bits(n, vals[1])})
         elif k == "wrong_dtype":
             n = call["type"]; other = call["other"]
@@ -96,23 +104,24 @@ def run_case(c):
             r = attempt("refuse-wrong-element-type/%s-given-%s" % (n, other), lambda: bits(n, getattr(K, "first_" + n)(p=a)), refused_expected=True)
             r["array_untouched"] = bool(np.all(a == np.arange(4, dtype=X.DT[other])))
         elif k == "struct":
-            buf = ctx.new_buffer(call.get("cap", 128))
+            buf = mkbuf(ctx, call.get("cap", 128), call.get("bufkind"))
             objs = []
             for j in range(call["n_objs"]):
                 if call.get("gaps"): buf.allocate(call["gaps"][j % len(call["gaps"])])
                 objs.append(KS(a=10 + j, v=[1.0 + j, 2.0, 3.0][:call.get("vlen", 3)], z=j + 1, _buffer=buf))
-            attempt("struct-read", lambda: [int(K.ks_read(obj=o)) for o in objs], expect=[(10 + j) * 1000 + j + 1 for j in range(len(objs))])
+            bk = "/bytearray-buffer" if call.get("bufkind") else ""
+            attempt("struct-read" + bk, lambda: [int(K.ks_read(obj=o)) for o in objs], expect=[(10 + j) * 1000 + j + 1 for j in range(len(objs))])
             if call.get("grow"):
                 for g in call["grow"]:
                     buf.grow(g)          # the storage is replaced: the handles must keep working
                     for j, o in enumerate(objs): o.a = 50 + j      # written from Python AFTER the growth
-                    attempt("struct-read/after-growth", lambda: [int(K.ks_read(obj=o)) for o in objs], expect=[(50 + j) * 1000 + j + 1 for j in range(len(objs))])
+                    attempt("struct-read/after-growth" + bk, lambda: [int(K.ks_read(obj=o)) for o in objs], expect=[(50 + j) * 1000 + j + 1 for j in range(len(objs))])
             def w():
                 for j, o in enumerate(objs): K.ks_write(obj=o, x=77 + j)
                 return [[int(o.a), float(o.v[0]), int(o.z)] for o in objs]
-            attempt("struct-write%s" % ("/after-growth" if call.get("grow") else ""), w, expect=[[77 + j, 77 + j + 0.5, j + 1] for j in range(len(objs))])
+            attempt("struct-write%s%s" % ("/after-growth" if call.get("grow") else "", bk), w, expect=[[77 + j, 77 + j + 0.5, j + 1] for j in range(len(objs))])
             if len(objs) >= 2:
-                attempt("two-objects-one-buffer", lambda: float(K.ks_two(p=objs[0], q=objs[1])), expect=77.5 * 100 + 78.5)
+                attempt("two-objects-one-buffer" + bk, lambda: float(K.ks_two(p=objs[0], q=objs[1])), expect=77.5 * 100 + 78.5)
         elif k == "refusals":
             n = call["type"]; x = X.np_scalar(n, call["bits"])
             attempt("refuse-positional", lambda: getattr(K, "echo_" + n)(x), refused_expected=True)
